@@ -308,3 +308,42 @@ func init() {
 	// unexported package-level functions: their signature
 	FuncHints["server.compareAddr"] = "func(net.Addr, net.Addr) bool"
 }
+
+// flagAlternatives: a decision taken through a boolean flag (`accepted := false; for … { if match { accepted = true; break } };
+// if accepted {…}`) is known at the test only as "the flag is true". Each constant edge of the flag's phi that carries the
+// tested outcome is one way of getting there; the conditions of that edge are what held. Returns one condition list per
+// way (just conds when no flag is involved).
+func flagAlternatives(conds []Cond) [][]Cond {
+	for i, dc := range conds {
+		ph, ok := dc.V.(*ssa.Phi)
+		if !ok {
+			continue
+		}
+		if b, isB := ph.Type().Underlying().(*types.Basic); !isB || b.Kind() != types.Bool {
+			continue
+		}
+		var alts [][]Cond
+		usable := true
+		for _, l := range phiLeaves(ph) {
+			k, isK := l.v.(*ssa.Const)
+			if !isK || k.Value == nil || l.pred == nil {
+				usable = false
+				break
+			}
+			if (k.Value.String() == "true") != dc.Pol {
+				continue
+			}
+			rest := append(append([]Cond(nil), conds[:i]...), conds[i+1:]...)
+			alt := append(rest, append(DomCondsBlock(l.pred), EdgeConds(l.pred, l.succ)...)...)
+			alts = append(alts, alt)
+		}
+		if usable && len(alts) > 0 {
+			var out [][]Cond
+			for _, a := range alts {
+				out = append(out, flagAlternatives(a)...)
+			}
+			return out
+		}
+	}
+	return [][]Cond{conds}
+}
